@@ -1,8 +1,9 @@
 (* C09 -- Notations defined by expansion compile like their hand-expanded form.  Statements only.
    Model: Model/Expansion.v (the linker's COMPONENTS OF pass and the selection type, next to the meaning of the
    notations).  The proved part: one linking step is right when the notation comes last in the list and the referenced
-   SEQUENCE types are already expanded; the selection type picks the named alternative.  That the pass as a whole is
-   right is FALSE of the code (three refuted theorems = three known findings); value references in constraints,
+   types (SEQUENCE in a SEQUENCE, SET in a SET) are already expanded; the selection type picks the named alternative.
+   That the pass as a whole is right is FALSE of the code (two refuted theorems = two known findings; a third, COMPONENTS OF
+   a SET type, was repaired in /repo and is now an Example); value references in constraints,
    parameterized types and class field types are decided by the search (sugared module versus hand-expanded module). *)
 From Coq Require Import NArith List Bool.
 Require Import RasnV.Model.Base RasnV.Model.Driver RasnV.Model.Expansion.
@@ -10,12 +11,12 @@ Require RasnV.Proofs.C09.
 Import ListNotations.
 
 Theorem C09_components_of_step_partial :
-  forall f ds st n own refs,
+  forall f ds st n k own refs,
     (forall r, In r refs -> exists d t,
-         find_def r ds = Some d /\ t_is_seq d = true /\ find_state r st = Some t /\ l_is_seq t = true /\
-         l_members t = expand f ds true (t_items d)) ->
-    l_members (link_one st (init_state (mktdef n true (map Own own ++ map ComponentsOf refs)))) =
-    expand (S f) ds true (map Own own ++ map ComponentsOf refs).
+         find_def r ds = Some d /\ t_is_seq d = k /\ find_state r st = Some t /\
+         l_members t = expand f ds k (t_items d)) ->
+    l_members (link_one st (init_state (mktdef n k (map Own own ++ map ComponentsOf refs)))) =
+    expand (S f) ds k (map Own own ++ map ComponentsOf refs).
 Proof. exact Proofs.C09.link_one_meets_spec. Qed.
 
 Theorem C09_selection :
@@ -37,18 +38,19 @@ Theorem C09_components_of_chain_refuted :
   linked_members ds Proofs.C09.nZ = Some [Proofs.C09.n_flag; Proofs.C09.n_label].
 Proof. exact Proofs.C09.components_of_chain_refuted. Qed.
 
-Theorem C09_components_of_set_refuted :
+(* COMPONENTS OF a SET type: refuted until the fix of the SET case, now an instance of C09_pass_depth_one with k = false *)
+Example C09_components_of_set_linked :
   let ds := [mktdef Proofs.C09.nS false [Own Proofs.C09.na]; mktdef Proofs.C09.nT false [Own Proofs.C09.ne; ComponentsOf Proofs.C09.nS]] in
-  expanded_members ds Proofs.C09.nT = Some [Proofs.C09.ne; Proofs.C09.na] /\ linked_members ds Proofs.C09.nT = Some [Proofs.C09.ne].
-Proof. exact Proofs.C09.components_of_set_refuted. Qed.
+  expanded_members ds Proofs.C09.nT = Some [Proofs.C09.ne; Proofs.C09.na] /\ linked_members ds Proofs.C09.nT = Some [Proofs.C09.ne; Proofs.C09.na].
+Proof. exact Proofs.C09.components_of_set_linked. Qed.
 
 (* ... but it does hold, for the whole pass over any module and any processing order the names induce, whenever the
-   COMPONENTS OF entries come last and refer to SEQUENCE types that use no COMPONENTS OF themselves: *)
+   COMPONENTS OF entries come last and refer to types of the same kind (k: SEQUENCE / SET) that use no COMPONENTS OF themselves: *)
 Theorem C09_pass_depth_one :
-  forall ds n own refs,
+  forall ds n k own refs,
     NoDup (map t_name ds) ->
-    find_def n ds = Some (mktdef n true (map Own own ++ map ComponentsOf refs)) ->
-    (forall r, In r refs -> r <> n /\ exists dr, find_def r ds = Some dr /\ t_is_seq dr = true /\ refs_of (t_items dr) = []) ->
+    find_def n ds = Some (mktdef n k (map Own own ++ map ComponentsOf refs)) ->
+    (forall r, In r refs -> r <> n /\ exists dr, find_def r ds = Some dr /\ t_is_seq dr = k /\ refs_of (t_items dr) = []) ->
     linked_members ds n = expanded_members ds n.
 Proof. exact Proofs.C09.link_pass_depth_one. Qed.
 
